@@ -18,6 +18,19 @@
 //	      (where-field := integer alphabet + ids of the chain's own elements)
 //	      x (how-many-field := integer alphabet); the compound-file seeds also
 //	      in a variant whose FAT sector list continues in an MSAT sector chain,
+//	(vii) both tiers: text-valued fields of ZIP-based packages (member names,
+//	      JAR manifest / signature-file attribute values) x the text alphabet
+//	      (one byte of every UTF-8 class, separators, well-formed multi-byte
+//	      characters; runs with lengths around the 72-byte manifest line, two
+//	      lines, 255/256 and 65535; as the whole value, before, behind and
+//	      inside it), the archive written again with every length, offset and
+//	      CRC fixed up (structured.go, mutate/text.go, zipedit.go, manifest.go),
+//	(viii) metadata documents that lie compressed and under a checksum (the
+//	      table of contents of a xar, the XML parts of an APPX / VSIX) edited as
+//	      decoded documents, element by element and attribute by attribute and
+//	      all elements of a kind at once, and the container re-encoded around
+//	      them with correct lengths and checksums (mutate/docedit.go,
+//	      xaredit.go),
 //
 // and runs every mutated input through every parser entry point of its kind in
 // rlimited worker subprocesses. Oracle: no panic (any goroutine), no process
@@ -182,7 +195,7 @@ func main() {
 		n, _ := strconv.Atoi(v)
 		hangTimeout = time.Duration(n) * time.Second
 	}
-	budget := 165 * time.Second
+	budget := 200 * time.Second
 	if run.Thorough() {
 		budget = 27 * time.Minute
 	}
@@ -232,7 +245,7 @@ func main() {
 		srvDone = make(chan struct{})
 		go func() { defer close(srvDone); e.serverPhase() }()
 	}
-	if !replayOnly {
+	if !replayOnly && os.Getenv("C11_NO_SCALE") == "" {
 		scalePhase(run)
 	}
 	if srvDone != nil {
@@ -400,6 +413,7 @@ func (e *engine) enumerate() {
 		Kept    map[string]int `json:"kept_after_dedup_by_class"`
 		Cases   int            `json:"cases"`
 		Couples string         `json:"coupled_field_groups,omitempty"`
+		Struct  string         `json:"structured_layer_fields,omitempty"`
 		Entries []string       `json:"entries"`
 	}
 	var stats []seedStat
@@ -477,6 +491,17 @@ func (e *engine) enumerate() {
 			// group the format defines, both tiers
 			st.Couples = coupleStats(cs)
 			addCouples(set, len(s.data), cs)
+			// (vii), (viii) text-valued fields and decoded metadata documents,
+			// re-encoded into a container that is valid but for the edit (structured.go)
+			if !coupledOnly && os.Getenv("C11_NO_STRUCT") == "" {
+				twin := false
+				for _, o := range e.seeds {
+					if o.Name == s.Name+":signed" && o.Kind == "pkg" && (thorough || o.Quick) {
+						twin = true
+					}
+				}
+				st.Struct = addStructured(set, s, thorough, twin)
+			}
 			// (iv) tar header fields
 			if s.Kind == "tar" {
 				var names []string
@@ -503,7 +528,14 @@ func (e *engine) enumerate() {
 			}
 			st.Raw, st.Kept = set.Class, set.Kept
 			for _, m := range set.List {
-				e.cases = append(e.cases, caseT{int32(s.Idx), mask, m.Spec()})
+				spec := m.Spec()
+				if len(m.Splices) > 0 {
+					spec = m.LabelledSpec() // a structured edit says what it edited
+				}
+				if cls := os.Getenv("C11_ONLY_CLASS"); cls != "" && (len(m.Splices) > 0) != (cls == "struct") {
+					continue
+				}
+				e.cases = append(e.cases, caseT{int32(s.Idx), mask, spec})
 			}
 		}
 		st.Cases = len(e.cases) - first
@@ -514,6 +546,9 @@ func (e *engine) enumerate() {
 		tot := 0
 		for _, st := range stats {
 			fmt.Printf("%-44s %-6s %-12s size=%-7d struct=%-6d cases=%-7d %v\n", st.Name, st.Kind, st.Module, st.Size, st.Regions, st.Cases, st.Kept)
+			if st.Struct != "" {
+				fmt.Printf("    structured: %s\n", st.Struct)
+			}
 			tot += st.Cases * len(st.Entries)
 		}
 		fmt.Println("total cases", len(e.cases), "entry executions", tot)
@@ -929,7 +964,7 @@ func (e *engine) inputSize(id int) int {
 	if m.Trunc >= 0 {
 		return m.Trunc
 	}
-	return e.seeds[c.seed].Size
+	return e.seeds[c.seed].Size + m.Delta()
 }
 
 // onResult handles one "R" line: R case entry class talloc heapsys us size sig extra
@@ -958,7 +993,7 @@ func (e *engine) onResult(f []string, suspects *[]allocSuspect) {
 		if us > e.slowest[i].us {
 			copy(e.slowest[i+1:], e.slowest[i:len(e.slowest)-1])
 			e.slowest[i].us = us
-			e.slowest[i].desc = fmt.Sprintf("%s %s %s: %.1f ms", seed.Name, e.cases[id].spec, entry, float64(us)/1000)
+			e.slowest[i].desc = fmt.Sprintf("%s %s %s: %.1f ms", seed.Name, shortSpec(e.cases[id].spec), entry, float64(us)/1000)
 			break
 		}
 	}
@@ -970,7 +1005,7 @@ func (e *engine) onResult(f []string, suspects *[]allocSuspect) {
 		key := "panic:" + entryClass(entry) + ":" + pi.Func
 		e.addFinding(key, entry, id, size, pi.Msg, pi.Frames, "")
 	case "harness-error":
-		e.harnessError(fmt.Sprintf("%s %s %s: %s", seed.Name, e.cases[id].spec, entry, f[9]))
+		e.harnessError(fmt.Sprintf("%s %s %s: %s", seed.Name, shortSpec(e.cases[id].spec), entry, f[9]))
 	}
 	if talloc > uint64(allocBase+allocFactor*size) {
 		*suspects = append(*suspects, allocSuspect{id, en, talloc})
@@ -1284,6 +1319,8 @@ func (e *engine) confirmAlloc(s allocSuspect) {
 	firstOff := -1
 	if m, err := mutate.ParseSpec(e.cases[s.id].spec); err == nil && len(m.Ops) > 0 {
 		firstOff = m.Ops[0].Off
+	} else if err == nil && len(m.Splices) > 0 {
+		firstOff = m.Splices[0].Off
 	}
 	akey := fmt.Sprintf("alloc:%s:%s|seed%d@%d", entryClass(ename), typ0, seed.Idx, firstOff)
 	e.mu.Lock()
@@ -1393,14 +1430,14 @@ func (e *engine) report() {
 		note := describeMutation(seed, c.spec)
 		rf := reproFile{Key: k, Entry: fd.entry, Kind: seed.Kind, Module: seed.Module, Ext: seed.Ext, Seed: seed.Name, Mutation: c.spec, Note: note,
 			Content: seed.Content, Aux: seed.Aux, Message: fd.msg, Frames: fd.frames, Size: len(input)}
-		rf.Desc = fmt.Sprintf("%s on seed %s (%s, %d bytes) mutated by %s [%s]: %s", fd.entry, seed.Name, seed.Origin, seed.Size, c.spec, note, fd.msg)
+		rf.Desc = fmt.Sprintf("%s on seed %s (%s, %d bytes) mutated by %s [%s]: %s", fd.entry, seed.Name, seed.Origin, seed.Size, shortSpec(c.spec), note, fd.msg)
 		if fd.detail != "" {
 			rf.Desc += " (" + fd.detail + ")"
 		}
 		if len(fd.frames) > 0 {
 			rf.Desc += " at " + strings.Join(fd.frames[:min(4, len(fd.frames))], " < ")
 		}
-		table = append(table, map[string]any{"key": k, "hits": fd.count, "seed": seed.Name, "mutation": c.spec, "note": note, "entry": fd.entry, "size": len(input), "message": fd.msg, "frames": fd.frames})
+		table = append(table, map[string]any{"key": k, "hits": fd.count, "seed": seed.Name, "mutation": shortSpec(c.spec), "note": note, "entry": fd.entry, "size": len(input), "message": fd.msg, "frames": fd.frames})
 		if writeRepro && !strings.HasPrefix(seed.Name, "repro:") {
 			name := sanitize(k)
 			if len(name) > 120 {
@@ -1460,6 +1497,8 @@ func (e *engine) report() {
 		"tar":                  "every header field x per-field alphabet with recomputed checksum; whole-stream variants swap/duplicate/drop/trailing member, missing EOF blocks, pax override; byte and integer mutations of small member bodies (central directory copy) and of the inner format structures",
 		"pairs":                map[bool]string{false: "none in quick", true: "all pairs of LE field mutations among the first 40 plausible fields in the first 512 bytes of seeds <= 2 KiB"}[thorough],
 		"coupled_fields":       fmt.Sprintf("both tiers (quick: also for the package seeds <= 256 KiB that are otherwise thorough-only, which then get these mutations and the single-field mutations of the same fields only): per seed, every group of coupled fields of its format (see coupled_field_groups per seed; chains: the start field and the link fields of the first %d elements): all pairs (where-field := integer alphabet + the ids of the chain's first %d elements) x (count/length field := integer alphabet); formats: CFB (MSAT, mini-FAT and directory chains, FAT list, directory entries), ZIP (end record, first central header, APK signing block), PE, CAB, XAR, UDIF + code signature, Mach-O, RPM, and the same inside upload-tar members", coupleMaxChain, coupleMaxChain),
+		"text_fields":          structTextBounds(thorough),
+		"decoded_documents":    structDocBounds(thorough),
 		"server":               fmt.Sprintf("real daemon in a child process (RLIMIT_AS 4 GiB); bodies: per (seed, sign entry, outcome class + normalised error text / panic site) the first enumerated input whose entry ended regularly within the allocation bound; each body followed by one well-formed request; the phase stops after %d dead servers; request timeout = hang bound", serverMaxDeaths),
 		"alloc_bound":          "heap (HeapSys) growth in a fresh worker > 64 MiB + 64 x input size; screened by TotalAlloc per entry",
 		"hang_bound_s":         hangTimeout.Seconds(),
@@ -1469,9 +1508,10 @@ func (e *engine) report() {
 		"worker_processes":     atomic.LoadInt64(&e.wseq),
 		"entry_points_by_kind": kindEntries,
 	})
-	run.Rule("case = (seed, mutation) de-duplicated by effect (mutations producing identical bytes count once; no-ops dropped); every case is run through every entry point of its kind, each (case, entry) execution is one evaluation. distinct_nontrivial = cases whose tuple of per-entry outcomes (ok / not-signed / normalised error text / panic site / abnormal end) differs from the tuple of the unmutated seed, i.e. the mutation moved at least one entry point onto a different path. Server phase: case = one upload stream per (seed, sign entry, distinct outcome) sent to a real daemon process and followed by a well-formed signing request; one evaluation each; non-trivial when the daemon answers the stream with a status other than 2xx; the oracle is the statement's: the process must not end and must answer the request that follows")
+	run.Rule("case = (seed, mutation) de-duplicated by effect (mutations producing identical bytes count once; no-ops dropped); every case is run through every entry point of its kind, each (case, entry) execution is one evaluation. distinct_nontrivial = cases whose tuple of per-entry outcomes (ok / not-signed / normalised error text / panic site / abnormal end) differs from the tuple of the unmutated seed, i.e. the mutation moved at least one entry point onto a different path. Structured edits (classes text:* and doc:*) are mutations too: the value of one text field (ZIP member name, manifest attribute) := one element of units x lengths x placements, or one element-level edit of a decoded metadata document, each written back into a container whose lengths, offsets and checksums are recomputed by the harness (independent of relic: hash/crc32, compress/flate, compress/zlib, the lexer of gen/xmlgen); they go through the same entry points, signing included, and count as non-trivial by the same rule. Server phase: case = one upload stream per (seed, sign entry, distinct outcome) sent to a real daemon process and followed by a well-formed signing request; one evaluation each; non-trivial when the daemon answers the stream with a status other than 2xx; the oracle is the statement's: the process must not end and must answer the request that follows")
 	run.Assume("the module a byte string is presented to is the seed's module (the server takes sigtype from the request, `relic sign -T` from the command line); magic detection is exercised as its own entry point")
 	run.Assume("server phase: the daemon listens without TLS on loopback and takes the client certificate from a trusted proxy's Ssl-Client-Cert header (a deployment relic supports); the handler chain and the http.Server timeouts are the ones daemon.New builds from the configuration defaults. A body whose sign entry died, hung or broke the allocation bound in the engine is reported under the engine's key and not sent to the daemon")
+	run.Assume("text fields and decoded documents: the fields of ZIP-based packages (jar, apk, xap, appx, vsix) and of xar are covered; names in the other containers are fixed-width or NUL-terminated fields inside regions the byte and integer classes already cover (CFB directory entries, ar headers, CAB CFFILE, tar headers through the tar field alphabet); the DMG property list is stored uncompressed (byte classes) and carries a DOCTYPE the document lexer does not handle")
 	run.Assume("goroutines that stay blocked after an entry returns are leaks, not crashes, and are out of scope")
 	run.Assume("certloader.ParsePKCS12 is not an entry point here: its cost is governed by the KDF iteration count inside the third-party decoder; PKCS#12 seeds are fed to ParseX509Certificates / ParseAnyPrivateKey")
 	run.Assume("Transformer.Apply (patching the result into the mutated file) is not exercised here (C12/C13)")
@@ -1479,7 +1519,7 @@ func (e *engine) report() {
 	n := 0
 	for i := len(e.cases) / 3; i < len(e.cases) && n < 6; i += len(e.cases)/7 + 1 {
 		c := e.cases[i]
-		run.Sample(map[string]any{"seed": e.seeds[c.seed].Name, "mutation": c.spec, "meaning": describeMutation(e.seeds[c.seed], c.spec)})
+		run.Sample(map[string]any{"seed": e.seeds[c.seed].Name, "mutation": shortSpec(c.spec), "meaning": describeMutation(e.seeds[c.seed], c.spec)})
 		n++
 	}
 }
@@ -1504,6 +1544,23 @@ func reproInventory(input []byte) (total int, same string) {
 	return
 }
 
+// shortSpec: the spec of a structured edit carries the re-encoded bytes; in
+// texts it is cut to its head and its label (the full spec is in the record).
+func shortSpec(spec string) string {
+	if len(spec) <= 160 {
+		return spec
+	}
+	label := ""
+	if i := strings.IndexByte(spec, '#'); i >= 0 {
+		label = spec[i:]
+		spec = spec[:i]
+	}
+	if len(spec) > 96 {
+		spec = spec[:96] + "..."
+	}
+	return spec + label
+}
+
 func min(a, b int) int {
 	if a < b {
 		return a
@@ -1520,6 +1577,9 @@ func describeMutation(s *Seed, spec string) string {
 	}
 	if m.Trunc >= 0 {
 		return fmt.Sprintf("truncated to the first %d of %d bytes", m.Trunc, s.Size)
+	}
+	if len(m.Splices) > 0 {
+		return fmt.Sprintf("%s (container re-encoded: %d replaced ranges, %+d bytes)", m.Note, len(m.Splices), m.Delta())
 	}
 	if len(m.Ops) == 0 {
 		return "unmodified"
